@@ -6,9 +6,10 @@
 //
 //	c20stress -cfg FILE
 //
-// FILE: {"mode":"mix"|"cache"|"replay","seed":S,"goroutines":N,"ops":K,
+// FILE: {"mode":"mix"|"cache"|"replay"|"handoff" ("cases":[...], see handoff.go),"seed":S,"goroutines":N,"ops":K,
 // "ttl_ms":T,"rounds":R,"threads":[[{"method":"Get"|"Set","key":"k"}]],
-// "clock":"atomic"|"mono" (optional, cache/replay only)}
+// "clock":"atomic"|"mono" (optional, cache/replay only),
+// "fault":"lost-set"|"torn"|"stale" (optional self-test of the cache checker)}
 //
 // Exactly one JSON object is written to stdout; diagnostics go to stderr.
 // Exit 0 normally (also with mismatches), 3 on setup/internal errors; the race
@@ -30,14 +31,16 @@ type call struct {
 }
 
 type config struct {
-	Mode       string   `json:"mode"`
-	Seed       int64    `json:"seed"`
-	Goroutines int      `json:"goroutines"`
-	Ops        int      `json:"ops"`
-	TTLms      int      `json:"ttl_ms"`
-	Rounds     int      `json:"rounds"`
-	Threads    [][]call `json:"threads"`
-	Clock      string   `json:"clock"`
+	Mode       string        `json:"mode"`
+	Seed       int64         `json:"seed"`
+	Goroutines int           `json:"goroutines"`
+	Ops        int           `json:"ops"`
+	TTLms      int           `json:"ttl_ms"`
+	Rounds     int           `json:"rounds"`
+	Threads    [][]call      `json:"threads"`
+	Clock      string        `json:"clock"`
+	Fault      string        `json:"fault"` // self-test of the cache checker only
+	Cases      []handoffCase `json:"cases"` // mode "handoff"
 }
 
 type mismatch struct {
@@ -60,6 +63,7 @@ type output struct {
 	Panics        []string         `json:"panics"`
 	ElapsedMs     int64            `json:"elapsed_ms"`
 	Notes         []string         `json:"notes,omitempty"`
+	Observations  [][]int          `json:"observations,omitempty"` // mode "handoff": one list per case
 }
 
 const maxMismatches = 20
@@ -107,7 +111,7 @@ func main() {
 	if err := json.Unmarshal(b, &cfg); err != nil {
 		fatal("parse cfg: %v", err)
 	}
-	if cfg.Mode != "replay" {
+	if cfg.Mode != "replay" && cfg.Mode != "handoff" {
 		if cfg.Goroutines < 2 || cfg.Goroutines > 64 {
 			fatal("goroutines must be in 2..64, got %d", cfg.Goroutines)
 		}
@@ -139,6 +143,8 @@ func main() {
 		err = runCache(&cfg, out)
 	case "replay":
 		err = runReplay(&cfg, out)
+	case "handoff":
+		err = runHandoff(&cfg, out)
 	default:
 		fatal("unknown mode %q", cfg.Mode)
 	}
